@@ -170,6 +170,12 @@ structure Req where
   id : Option Id           -- id of the POSTed message (`none` = notification)
   deriving Repr, DecidableEq
 
+/-- a POSTed message with its method: carried along so that "the method does not matter" is a statement -/
+structure ReqM where
+  id : Option Id
+  method : String
+  deriving Repr, DecidableEq
+
 /-- `_session_id` after one answer: updated on a non-error status carrying the header -/
 def sessionAfter (s : Option String) : Behaviour â†’ Option String
   | .exc _ => s
@@ -193,6 +199,10 @@ def run {P : Type} (dec : Dec P) (s : Option String) : List (Req Ã— Behaviour) â
   | (r, b) :: rest =>
     let t := run dec (sessionAfter s b) rest
     { outs := outcome dec r.id b ++ t.outs, hdrs := hdr s :: t.hdrs, session := t.session }
+
+/-- the sender loop on messages that carry their method: the method is not consulted -/
+def runM {P : Type} (dec : Dec P) (s : Option String) (rs : List (ReqM Ã— Behaviour)) : Trace P :=
+  run dec s (rs.map (fun p => (({ id := p.1.id } : Req), p.2)))
 
 /-! ## Options, and several transports in one process
 
